@@ -318,6 +318,8 @@ class Reader:
 
     def read(self, n=-1):
         self.fs.w.event('fs', 'read:%s' % self.path)
+        if isinstance(self.f.content, SymContent):
+            return self.f.content
         data = self._all()
         if n is None or n < 0:
             r = data[self.pos:] if self.pos else data
@@ -364,14 +366,12 @@ class Local:
             raise AttributeError(k)
 
 
-class World:
-    """model backend"""
+class BaseWorld:
+    """event counting and directives shared by the model backend and the real backend"""
     real = False
 
     def __init__(self, L, page=None, batch=None):
         self.L = L
-        self.fs = ModelFS(self)
-        self.dbs = {}  # path -> ModelDB
         self.pid, self.tid = 100, 1
         self.nevents = 0
         self.counting = False
@@ -391,6 +391,7 @@ class World:
         self.max_sleeps = 4
         self.begin_hook = None
         self.event_hooks = []
+        self.busy_hook = None
         zpath.TOKENS.clear()
         self.install()
 
@@ -433,16 +434,61 @@ class World:
         for h in self.event_hooks:
             h(i, kind, detail, con)
 
+    def _bind_modules(self, sq, open_fn, osm, opm, tm, th):
+        L = self.L
+        self.osm, self.opm, self.tm, self.th = osm, opm, tm, th
+        core = L.core
+        core.sqlite3 = sq
+        core.open = open_fn
+        core.os = osm
+        core.op = opm
+        core.time = tm
+        core.threading = th
+        core.type = zpath.sym_type
+        core.isinstance = zpath.sym_isinstance
+        if self.page is not None:
+            core._VERIF_PAGE = self.page
+        if self.batch is not None:
+            core._VERIF_BATCH = self.batch
+        for name in ('persistent', 'fanout', 'recipes', 'djangocache'):
+            m = getattr(L, name, None)
+            if m is None:
+                continue
+            if hasattr(m, 'time'):
+                m.time = tm
+            if hasattr(m, 'os'):
+                m.os = osm
+            if hasattr(m, 'op') and name == 'fanout':
+                m.op = opm
+            if hasattr(m, 'threading'):
+                m.threading = th
+            if hasattr(m, 'sqlite3'):
+                m.sqlite3 = sq
+            m.type = zpath.sym_type
+            m.isinstance = zpath.sym_isinstance
+
+
+class World(BaseWorld):
+    """model backend"""
+    real = False
+    dir = '/m'
+
+    def __init__(self, L, page=None, batch=None):
+        self.fs = ModelFS(self)
+        self.dbs = {}  # path -> ModelDB
+        super().__init__(L, page, batch)
+
     # ---- clock
     def time(self):
         if self.clock_fn is not None:
             return self.clock_fn()
         k = len(self.times)
-        t = z3.Real('t%d' % k)
+        t = z3.Real('t%d' % k) if sx.REAL_MODE else z3.Int('t%d' % k)
         if self.times:
             assume(t >= self.times[-1])
         else:
             assume(t >= 1)  # the clock reads a positive epoch time
+        assume(t <= 2 ** 62)
         self.times.append(t)
         return R(t)
 
@@ -495,36 +541,7 @@ class World:
         osm.path = opm
         tm = types.SimpleNamespace(time=self.time, sleep=self.sleep, monotonic=self.time)
         th = types.SimpleNamespace(local=lambda: Local(w), get_ident=lambda: w.tid, Thread=None)
-        self.osm, self.opm, self.tm, self.th = osm, opm, tm, th
-        core = L.core
-        core.sqlite3 = sq
-        core.open = self.fs.open
-        core.os = osm
-        core.op = opm
-        core.time = tm
-        core.threading = th
-        core.type = zpath.sym_type
-        core.isinstance = zpath.sym_isinstance
-        if self.page is not None:
-            core._VERIF_PAGE = self.page
-        if self.batch is not None:
-            core._VERIF_BATCH = self.batch
-        for name in ('persistent', 'fanout', 'recipes', 'djangocache'):
-            m = getattr(L, name, None)
-            if m is None:
-                continue
-            if hasattr(m, 'time'):
-                m.time = tm
-            if hasattr(m, 'os'):
-                m.os = osm
-            if hasattr(m, 'op') and name == 'fanout':
-                m.op = opm
-            if hasattr(m, 'threading'):
-                m.threading = th
-            if hasattr(m, 'sqlite3'):
-                m.sqlite3 = sq
-            m.type = zpath.sym_type
-            m.isinstance = zpath.sym_isinstance
+        self._bind_modules(sq, self.fs.open, osm, opm, tm, th)
 
     # ---- symbolic inputs (names are the replay interface)
     def int(self, name, lo=None, hi=None):
@@ -536,7 +553,7 @@ class World:
         return I(v)
 
     def real(self, name, lo=None, hi=None):
-        v = z3.Real(name)
+        v = z3.Real(name) if sx.REAL_MODE else z3.Int(name)
         if lo is not None:
             assume(v >= lo)
         if hi is not None:
@@ -551,6 +568,51 @@ class World:
         i = int(self.int(name, 0, len(options) - 1))
         return options[i]
 
+
+
+    # ---- backend interface used by scenarios
+    def new_cache(self, directory=None, cls_getter=None, **settings):
+        return new_cache(self, directory or self.dir, cls_getter, **settings)
+
+    def clone_handle(self, obj0):
+        return clone_handle(self, obj0)
+
+    def intern_text(self, s):
+        return self.db_for(posixpath.join(self.dir, 'cache.db')).intern.intern(sqlmodel.TEXT, s)
+
+    def set_page_count(self, cache, fn):
+        cache._con.db.page_count = fn
+
+    def install_rows(self, cache, rowspecs, hits=0, misses=0):
+        from . import state
+        state.install_model(self, cache, rowspecs, hits, misses)
+
+    def snapshot(self, cache):
+        from . import state
+        return state.snapshot_model(self, cache)
+
+    def add_prefile(self, relpath, content, size, exists):
+        self.fs.add_file(posixpath.join(self.dir, relpath), content=content, size=size, exists=exists)
+
+    def val_files(self, cache):
+        d = cache._directory
+        out = []
+        for p, f in self.fs.files.items():
+            if p.startswith(d + '/') and p.endswith('.val'):
+                sz = f.size.z if isinstance(f.size, I) else f.size
+                out.append((p[len(d) + 1:], f.exists, sz, f.complete))
+        return out
+
+    def cleanup(self):
+        pass
+
+    def bind(self, v):
+        if isinstance(v, SymContent):
+            return Cell(sqlmodel.BLOB, v.cid)
+        return Connection(self.db_for(posixpath.join(self.dir, 'cache.db'))).bind(v)
+
+    def file_content(self, cache, rel):
+        return self.fs.files[posixpath.join(cache._directory, rel)].content
 
 # ------------------------------------------------------------------ cache templates
 # The real Cache.__init__ is executed once (concretely, on an empty model database) per distinct
